@@ -127,7 +127,21 @@ def examine(ctx, recipe, items) -> None:
                 except ValueError:
                     pass
                 v = v.transpose(*u.dims)
-            q = c.make_quiver(ax, u, v, transform=ax.transData)
+            try:
+                q = c.make_quiver(ax, u, v, transform=ax.transData)
+            except Exception as e:
+                ctx.oracle_fail('quiver-raises', desc, f'make_quiver(transform=ax.transData) raised {type(e).__name__}: {str(e)[:150]}')
+                return
+            # the arrows sit at the face centres *in the coordinate system the caller named*
+            probe = np.array([[0.0, 0.0], [1.0, 2.0], [-3.0, 5.0]])
+            try:
+                placed = q.get_offset_transform().transform(probe)
+                same = np.array_equal(placed, ax.transData.transform(probe))
+            except Exception:
+                same = False
+            ctx.evaluated()
+            if not same:
+                ctx.oracle_fail('quiver-transform-not-the-one-given', desc, 'make_quiver(transform=T) places its arrows with another transform than T')
             X, Y = np.asarray(q.X, dtype='f8'), np.asarray(q.Y, dtype='f8')
             # matplotlib stores U, V filled with 1 plus ONE combined mask: an arrow with a missing
             # component is not drawn at all
@@ -215,6 +229,15 @@ def make_recipe(ctx, k):
     if conv in ('cf2d', 'shoc_simple'):
         kw['twist'] = True
     recipe = G.random_recipe(rng, conv, ctx.tier, **kw)
+    if rng.random() < 0.3:
+        # coordinates in large units (projected metres, or cells wider than half a turn of longitude): a patch is the
+        # cell's outline whatever its extent
+        if conv == 'cf1d':
+            recipe['lon'] = [v * 100 for v in recipe['lon']]
+        elif conv in ('cf2d', 'shoc_simple'):
+            recipe['scale'] = recipe.get('scale', 1) * 60
+        elif conv == 'ugrid':
+            recipe['nodes'] = [[x * 100, y * 100] for x, y in recipe['nodes']]
     probe = G.build(recipe)
     # face variables only, one of them with an extra dimension
     vars_ = [{'name': 'a', 'kind': 'face', 'extra': [], 'base': 1000, 'dtype': 'f8'},
